@@ -57,6 +57,10 @@ pub struct LaunchShared {
     pub live: BTreeMap<u32, LiveExec>,
     /// tasks whose launch fails (by task id), set by the harness before delivery
     pub fail_launch: std::collections::BTreeSet<TaskId>,
+    /// every `slow_stop_mod`-th execution (offset `slow_stop_salt`) ends only when the harness
+    /// says so after it was told to stop; 0 = every execution ends at once (old replay files)
+    pub slow_stop_mod: u32,
+    pub slow_stop_salt: u32,
     pub dead_workers: std::collections::BTreeSet<WorkerId>,
     /// resource environment variables that do not describe the held allocation (C04)
     pub env_problems: Vec<(TaskId, WorkerId, String)>,
@@ -75,6 +79,9 @@ pub struct LiveExec {
     /// tokio (paused) time at start, milliseconds since world start
     pub start_ms: u64,
     pub time_limit_ms: Option<u64>,
+    /// the stop signal arrived, the body has not ended yet (a real process needs time to die;
+    /// it holds its resources on the worker until then)
+    pub stopping: bool,
 }
 
 pub type LaunchRef = Rc<RefCell<LaunchShared>>;
@@ -208,8 +215,10 @@ impl TaskLauncher for FakeLauncher {
                 start_step: step,
                 start_ms,
                 time_limit_ms: None,
+                stopping: false,
             },
         );
+        let slow_stop = sh.slow_stop_mod > 0 && (exec + sh.slow_stop_salt) % sh.slow_stop_mod == 0;
         drop(sh);
         let shared = self.shared.clone();
         let origin = self.origin;
@@ -232,19 +241,31 @@ impl TaskLauncher for FakeLauncher {
                     let step = sh.step;
                     let ms = (tokio::time::Instant::now() - origin).as_millis() as u64;
                     let dead = sh.dead_workers.contains(&worker);
+                    let mut wait_for_end = false;
                     match s {
                         Ok(StopReason::Cancel) => {
                             sh.log.push((step, ms, LEvent::Stop { exec, cancel: true, worker_dead: dead }));
                             result = Ok(TaskResult::Canceled); kind = EndKind::Canceled;
+                            wait_for_end = slow_stop;
                         }
                         Ok(StopReason::Timeout) => {
                             sh.log.push((step, ms, LEvent::Stop { exec, cancel: false, worker_dead: dead }));
                             result = Ok(TaskResult::Timeouted); kind = EndKind::Timeouted;
+                            wait_for_end = slow_stop;
                         }
                         Err(_) => {
                             // the running task object was dropped without a signal
                             result = Ok(TaskResult::Canceled); kind = EndKind::Canceled;
                         }
+                    }
+                    if wait_for_end && !dead {
+                        // the process takes its time to die: the execution stays live (and keeps
+                        // its resources) until the harness ends it
+                        if let Some(e) = sh.live.get_mut(&exec) {
+                            e.stopping = true;
+                        }
+                        drop(sh);
+                        let _ = (&mut rx).await;
                     }
                 }
             }
